@@ -194,7 +194,7 @@ func cmdWorker(args []string) {
 				d = tape.Mix(d, x)
 			}
 			if v != nil && !st.VerdictOrderDependent {
-				d = tape.Mix(d, tape.HashString(v.Class+"|"+v.Sig))
+				d = tape.Mix(d, tape.HashString(v.Class))
 			}
 			for k := range st.Logs {
 				d = tape.Mix(d, k)
